@@ -118,7 +118,7 @@ def install():
     root = logging.getLogger()
     root.setLevel(logging.DEBUG)
     h = _Render()
-    h.setFormatter(logging.Formatter("%(asctime)s %(name)s %(levelname)s %(message)s"))
+    h.setFormatter(logging.Formatter("%(name)s %(levelname)s %(message)s"))
     root.addHandler(h)
     for modname, fnames in FUNCTIONS.items():
         try:
